@@ -189,29 +189,38 @@ pub fn run(cli: &Cli) -> (Value, Vec<Violation>) {
         let n = snaps.len() - 1;
         for i in 0..=n {
             // assignments of "which state's view does proxy p hold" (index into snaps, or None)
-            let mut assigns: Vec<(String, Vec<Option<usize>>, Vec<bool>)> = vec![];
+            let mut assigns: Vec<(String, Vec<Option<usize>>, Vec<bool>, Option<usize>)> = vec![];
             let np = addrs.len();
-            assigns.push(("all at latest".into(), vec![Some(n); np], vec![true; np]));
-            assigns.push(("all at crash point".into(), vec![Some(i); np], vec![true; np]));
+            assigns.push(("all at latest".into(), vec![Some(n); np], vec![true; np], None));
+            assigns.push(("all at crash point".into(), vec![Some(i); np], vec![true; np], None));
             for p in 0..np {
                 let mut a = vec![Some(i); np];
                 a[p] = Some(n);
-                assigns.push((format!("only {} at latest", addrs[p]), a, vec![true; np]));
+                assigns.push((format!("only {} at latest", addrs[p]), a, vec![true; np], None));
                 if thorough || p % 2 == 0 {
                     let mut a2 = vec![Some(n); np];
                     a2[p] = None;
-                    assigns.push((format!("{} fresh (no metadata)", addrs[p]), a2, vec![true; np]));
+                    assigns.push((format!("{} fresh (no metadata)", addrs[p]), a2, vec![true; np], None));
                     let mut r = vec![true; np];
                     r[p] = false;
-                    assigns.push((format!("{} unreachable, rest latest", addrs[p]), vec![Some(n); np], r));
+                    assigns.push((format!("{} unreachable, rest latest", addrs[p]), vec![Some(n); np], r, None));
                 }
             }
             if n >= 2 && i + 1 < n {
                 // mixed: odd proxies one step behind the latest
                 let a: Vec<Option<usize>> = (0..np).map(|p| if p % 2 == 0 { Some(n) } else { Some(n - 1) }).collect();
-                assigns.push(("odd proxies one step behind".into(), a, vec![true; np]));
+                assigns.push(("odd proxies one step behind".into(), a, vec![true; np], None));
             }
-            for (ai, (alabel, assign, reach)) in assigns.iter().enumerate() {
+            if i < n {
+                // a sync of the latest view was cut between its two messages: the proxy installed
+                // the SETREPL of the latest view but still holds the SETCLUSTER of the crash point
+                for p in 0..np {
+                    if thorough || p % 3 == 0 {
+                        assigns.push((format!("all at crash point, {} also got the SETREPL (not the SETCLUSTER) of the latest view", addrs[p]), vec![Some(i); np], vec![true; np], Some(p)));
+                    }
+                }
+            }
+            for (ai, (alabel, assign, reach, half)) in assigns.iter().enumerate() {
                 acc.cases += 1;
                 let mut installed: Vec<u64> = vec![];
                 for (p, a) in assign.iter().enumerate() {
@@ -259,11 +268,12 @@ pub fn run(cli: &Cli) -> (Value, Vec<Violation>) {
                 }
                 acc.outcomes.insert(format!("gap={}", min_served.saturating_sub(max_reach.max(max_snap)).min(5)));
                 // ---- oracle 2: adoption by real proxies (subset of cases)
-                let do_adopt = if thorough { ai < 3 || (pi + i) % 7 == 0 } else { (pi % 5 == 0 && ai < 3) || ai == 0 && pi % 2 == 0 };
+                let do_adopt = half.is_some() && (thorough || pi % 3 == 0) || if thorough { ai < 3 || (pi + i) % 7 == 0 } else { (pi % 5 == 0 && ai < 3) || ai == 0 && pi % 2 == 0 };
                 if do_adopt {
                     acc.adoption_cases += 1;
                     let recovered = after_snap.clone();
                     let (snaps2, assign2, reach2, cfg2, counts2, addrs2) = (snaps.clone(), assign.clone(), reach.clone(), cfg.clone(), counts.clone(), addrs.clone());
+                    let (half2, latest) = (*half, n);
                     let r = vh::det::on_fresh_thread(pi as u64 * 131 + ai as u64, 32 << 20, move || {
                         run_sim(async move {
                             let world = World::new();
@@ -281,6 +291,18 @@ pub fn run(cli: &Cli) -> (Value, Vec<Violation>) {
                                 let sim = ClusterSim::with_world(world.clone(), &counts2, &cfg2, &opts, b);
                                 let allowed: BTreeSet<String> = assign2.iter().enumerate().filter(|(_, a)| **a == Some(j)).map(|(p, _)| addrs2[p].clone()).collect();
                                 world.set_gate(Some(Box::new(move |r: &ReqInfo| if r.from == "coordinator" && !allowed.contains(&r.to) { Gate::Fail } else { Gate::Pass })));
+                                sim.sync_round("coordinator", false).await;
+                                world.settle().await;
+                            }
+                            if let Some(hp) = half2 {
+                                // the interrupted sync of the latest view: only its SETREPL reaches `hp`
+                                let b = Broker::from_snapshot(&cfg2, 0, &snaps2[latest]).expect("restore");
+                                let sim = ClusterSim::with_world(world.clone(), &counts2, &cfg2, &opts, b);
+                                let target = addrs2[hp].clone();
+                                world.set_gate(Some(Box::new(move |r: &ReqInfo| {
+                                    let setcluster = r.cmds.first().map(|c| c.len() > 1 && c[1].eq_ignore_ascii_case(b"SETCLUSTER")).unwrap_or(false);
+                                    if r.from == "coordinator" && (r.to != target || setcluster) { Gate::Fail } else { Gate::Pass }
+                                })));
                                 sim.sync_round("coordinator", false).await;
                                 world.settle().await;
                             }
@@ -332,7 +354,7 @@ pub fn run(cli: &Cli) -> (Value, Vec<Violation>) {
         "traces_validated_against_impl": acc.cases,
         "evaluations": acc.cases,
         "distinct_nontrivial": acc.outcomes.len().max(2),
-        "rule": "case = (operation history of length <= n over {create 4/8, second cluster, add nodes, migrate, scale down, config change, balance, commit any, failover}, crash point i = any prefix, assignment of proxy views: all latest / all at crash point / one proxy ahead / one proxy fresh / one unreachable / odd proxies one step behind); the production MemBrokerService::recover_epoch runs against loopback responders answering UMCTL GETEPOCH",
+        "rule": "case = (operation history of length <= n over {create 4/8, second cluster, add nodes, migrate, scale down, config change, balance, commit any, failover}, crash point i = any prefix, assignment of proxy views: all latest / all at crash point / one proxy ahead / one proxy fresh / one unreachable / odd proxies one step behind / one proxy holding the SETREPL but not the SETCLUSTER of the latest view (a sync cut between its two messages)); the production MemBrokerService::recover_epoch runs against loopback responders answering UMCTL GETEPOCH",
         "histories": paths.len(),
         "cases": acc.cases,
         "adoption_cases_on_real_proxies": acc.adoption_cases,
